@@ -173,6 +173,30 @@ func (rc *realCorpus) close() {
 	os.RemoveAll(rc.dir)
 }
 
+// resolveTypeRepo is the oracle's own reading of type:repo: the repositories (by name) that some shard lists for the
+// child, computed innermost first from the individually loaded shards.
+func resolveTypeRepo(single []zoekt.Searcher, q query.Q) (out query.Q, err error) {
+	out = query.Map(q, func(q query.Q) query.Q {
+		t, ok := q.(*query.Type)
+		if !ok || t.Type != query.TypeRepo || err != nil {
+			return q
+		}
+		set := map[string]bool{}
+		for _, one := range single {
+			l, lerr := listRepos(one, t.Child)
+			if lerr != nil {
+				err = lerr
+				return q
+			}
+			for _, e := range l.Repos {
+				set[e.Repository.Name] = true
+			}
+		}
+		return &query.RepoSet{Set: set}
+	})
+	return out, err
+}
+
 // streamFiles collects the files of a StreamSearch.
 func streamFiles(s zoekt.Streamer, q query.Q) (files []zoekt.FileMatch, err error) {
 	defer func() {
@@ -261,11 +285,20 @@ func (rn *runner) searchList(rc *realCorpus, ctx []*q1q.Shard, q query.Q, viaDir
 			}
 		}
 		// Go oracle: union of the per-shard answers for the original query (no shared code with the sharded searcher)
-		if !hasTypeRepo(q) {
+		{
+			// type:repo sub-queries are resolved by the oracle itself, innermost first, from per-shard List calls on the
+			// individually loaded shards (union of the listed names); nothing of search/ is involved
+			oq, oerr := resolveTypeRepo(rc.single, q)
 			var want, got []string
 			failed := ""
+			if oerr != nil {
+				failed = oerr.Error()
+			}
 			for _, one := range rc.single {
-				fs, err := q1q.SearchFiles(one, q, nil)
+				if failed != "" {
+					break
+				}
+				fs, err := q1q.SearchFiles(one, oq, nil)
 				if err != nil {
 					failed = err.Error()
 					break
@@ -289,7 +322,7 @@ func (rn *runner) searchList(rc *realCorpus, ctx []*q1q.Shard, q query.Q, viaDir
 				// the files agree; do their Branches fields?
 				wb, gb := map[string]string{}, map[string]string{}
 				for _, one := range rc.single {
-					fs, _ := q1q.SearchFiles(one, q, nil)
+					fs, _ := q1q.SearchFiles(one, oq, nil)
 					for _, f := range fs {
 						wb[q1q.FileKey(f.Repository, f.FileName)] = strings.Join(f.Branches, ",")
 					}
@@ -340,11 +373,11 @@ func (rn *runner) searchList(rc *realCorpus, ctx []*q1q.Shard, q query.Q, viaDir
 			impl = "-"
 		}
 		// Go oracle: each repository once; statistics summed over the per-shard lists of the original query
-		if !hasTypeRepo(q) {
+		if loq, oerr := resolveTypeRepo(rc.single, q); oerr == nil {
 			want := map[string]zoekt.RepoStats{}
 			failed := false
 			for _, one := range rc.single {
-				l, err := listRepos(one, q)
+				l, err := listRepos(one, loq)
 				if err != nil {
 					failed = true
 					break
@@ -670,6 +703,119 @@ func topQuery(r *gen.Rand, qg *q1q.QGen, typeRepo bool) query.Q {
 	}
 }
 
+// typeRepoSiblings generates a query with two or three type:repo sub-queries whose children are variants of one
+// another: same shape, different parameters drawn from the repositories that exist — in particular children whose
+// debug rendering (String()) coincides although they select different repositories (RepoIDs of equal cardinality ≥ 2
+// print only their size, RepoSets of equal size > 5 too, BranchesRepos print cardinalities), and identical children.
+// Anything that shares state between the evaluations of the sub-queries of one request (memo tables keyed by a lossy
+// key, reuse of a result buffer, evaluation order) shows up here. class: "identical", "same-rendering", "distinct".
+func typeRepoSiblings(r *gen.Rand, qg *q1q.QGen, ctx []*q1q.Shard) (query.Q, string) {
+	var ids []uint32
+	var names []string
+	for _, s := range ctx {
+		for _, rp := range s.Repos {
+			ids = append(ids, rp.ID)
+			names = append(names, rp.Name)
+		}
+	}
+	gen.Shuffle(r, ids)
+	gen.Shuffle(r, names)
+	n := r.Range(2, 3)
+	pick := func(k, size int) []int { // k-th window of `size` positions, windows overlap but differ
+		out := []int{}
+		for j := 0; j < size; j++ {
+			out = append(out, (k+j)%max(len(ids), 1))
+		}
+		return out
+	}
+	var kids []query.Q
+	kind := r.Intn(5)
+	size := r.Range(2, 3)
+	var extra query.Q
+	if r.Chance(1, 3) {
+		extra = &query.Substring{Pattern: gen.Pick(r, []string{"foo", "bar", "fo"}), Content: r.Bool()}
+	}
+	identical := r.Chance(1, 6)
+	for k := 0; k < n; k++ {
+		kk := k
+		if identical {
+			kk = 0
+		}
+		var c query.Q
+		switch kind {
+		case 0: // RepoIDs of equal cardinality
+			bm := roaring.New()
+			for _, p := range pick(kk, size) {
+				if len(ids) > 0 {
+					bm.Add(ids[p])
+				}
+			}
+			c = &query.RepoIDs{Repos: bm}
+		case 1: // RepoSets of equal size > 5 (padded with names that do not exist)
+			set := map[string]bool{}
+			for _, p := range pick(kk, size) {
+				if len(names) > 0 {
+					set[names[p%len(names)]] = true
+				}
+			}
+			for j := 0; len(set) < 6; j++ {
+				set[fmt.Sprintf("absent/%d", j)] = true
+			}
+			c = &query.RepoSet{Set: set}
+		case 2: // BranchesRepos with equal cardinalities
+			bm := roaring.New()
+			for _, p := range pick(kk, size) {
+				if len(ids) > 0 {
+					bm.Add(ids[p])
+				}
+			}
+			c = &query.BranchesRepos{List: []query.BranchRepos{{Branch: gen.Pick(r, []string{"HEAD", "main", "dev"}), Repos: bm}}}
+		case 3: // small RepoSets (renderings differ)
+			set := map[string]bool{}
+			if len(names) > 0 {
+				set[names[kk%len(names)]] = true
+			}
+			c = &query.RepoSet{Set: set}
+		default: // content children
+			c = &query.Substring{Pattern: gen.Pick(r, []string{"foo", "bar", "fo", "main", "zz"}), Content: r.Bool(), CaseSensitive: kk%2 == 1}
+		}
+		if extra != nil {
+			c = &query.And{Children: []query.Q{c, extra}}
+		}
+		kids = append(kids, &query.Type{Type: query.TypeRepo, Child: c})
+	}
+	class := "distinct"
+	u := q1q.UniverseOf(ctx)
+	for i := 0; i < len(kids); i++ {
+		for j := i + 1; j < len(kids); j++ {
+			ci, cj := kids[i].(*query.Type).Child, kids[j].(*query.Type).Child
+			if u.EncQ(ci) == u.EncQ(cj) {
+				if class == "distinct" {
+					class = "identical"
+				}
+			} else if ci.String() == cj.String() {
+				class = "same-rendering"
+			}
+		}
+	}
+	var q query.Q
+	switch r.Intn(5) {
+	case 0:
+		q = &query.Or{Children: kids}
+	case 1:
+		q = &query.And{Children: append([]query.Q{kids[0], &query.Not{Child: kids[1]}}, kids[2:]...)}
+	case 2:
+		q = &query.And{Children: []query.Q{&query.Or{Children: []query.Q{kids[0], qg.Tree(1)}}, &query.Or{Children: kids[1:]}}}
+	case 3: // nested: the inner one is evaluated first
+		inner := kids[1]
+		outer := &query.Type{Type: query.TypeRepo, Child: &query.And{Children: []query.Q{inner, kids[0].(*query.Type).Child}}}
+		q = &query.And{Children: append([]query.Q{outer, kids[0]}, kids[2:]...)}
+	default:
+		q = &query.And{Children: append(append([]query.Q{}, kids...), qg.Tree(1))}
+	}
+	return q, class
+}
+
 func main() {
 	f := gen.ParseFlags()
 	w := gen.NewWriter(f.Out)
@@ -815,6 +961,12 @@ func main() {
 				}
 				b := gen.Pick(r, []string{"HEAD", "HEAD", "main", "dev", ""})
 				q = &query.And{Children: []query.Q{&query.BranchesRepos{List: []query.BranchRepos{{Branch: b, Repos: bm}}}, qg.Tree(1)}}
+			}
+			if k%5 == 2 {
+				// several type:repo sub-queries in one request, children that are variants of one another
+				var cl string
+				q, cl = typeRepoSiblings(r, qg, ctx)
+				w.Count("typerepo-siblings:"+cl, 1)
 			}
 			rn.searchList(rc, ctx, q, viaDir, "")
 		}
